@@ -293,7 +293,7 @@ structure ObjOk (db : Db) (s : State) (i : Nat) (q : Quantity) : Prop where
     db.categoryUnitValid cat u = true
   /-- a derived quantity is not of the "simple" shape and is interned under its composing key -/
   derived : q.derived = true → ∃ cs, readMap s.heap q.map = some cs ∧ dictIsSingleOne cs = none ∧
-    lookupKey s.cache (.comp (content cs) q.caption) = some i
+    lookupKey s.cache (.comp (content cs) q.caption) = some i ∧ ∀ kc ∈ cs, kc.2.frozen = false
 
 structure Inv (db : Db) (s : State) : Prop where
   objs : ∀ i q, s.objs[i]? = some q → ObjOk db s i q
@@ -317,7 +317,7 @@ theorem ObjOk.mono {db : Db} {s s' : State} {i : Nat} {q : Quantity} (h : ObjOk 
     have : r < s.heap.length := h.wf (cat, r) (by simp [hm])
     rw [hh.2 r this, hr]
   · obtain ⟨cs, hr, hs, hl⟩ := h.derived hd
-    exact ⟨cs, by rw [readMap_ext h.wf hh, hr], hs, hc _ _ hl⟩
+    exact ⟨cs, by rw [readMap_ext h.wf hh, hr], hs, hc _ _ hl.1, hl.2⟩
 
 /-- only the heap grew (working copies of an arithmetic routine) -/
 theorem Inv.heapExt {db : Db} {s : State} (hs : Inv db s) {h' : Heap} (hh : HeapExt s.heap h') :
@@ -441,10 +441,28 @@ theorem newSimple_spec (db : Db) (s : State) (cat unit : Sym) (cap : Option Sym)
       · exact .inl ⟨_, rfl⟩
       · exact .inr ⟨u, hu, rfl⟩
 
+theorem content_thaw (items : List (Sym × Cell)) : content (thaw items) = content items := by
+  simp [content, thaw, List.map_map, Function.comp_def]
+
+theorem thaw_unfrozen (items : List (Sym × Cell)) : ∀ kc ∈ thaw items, kc.2.frozen = false := by
+  intro kc hkc
+  simp only [thaw, List.mem_map] at hkc
+  obtain ⟨a, _, rfl⟩ := hkc
+  rfl
+
+theorem dictIsSingleOne_thaw (items : List (Sym × Cell)) :
+    dictIsSingleOne (thaw items) = none ↔ dictIsSingleOne items = none := by
+  cases items with
+  | nil => simp [thaw, dictIsSingleOne]
+  | cons a rest =>
+    cases rest with
+    | nil => by_cases h : a.2.exp = 1 <;> simp [thaw, dictIsSingleOne, h]
+    | cons _ _ => simp [thaw, dictIsSingleOne]
+
 theorem newDerived_spec (db : Db) (s : State) (items : List (Sym × Cell)) (od : Bool) (cap : Option Sym) :
     (∃ e, newDerived db s items od cap = (s, .error e)) ∨
     (newDerived db s items od cap =
-        (⟨s.heap ++ items.map (·.2), s.objs ++ [⟨(allocMany s.heap items).2, capStr cap, true⟩], s.cache, s.empty⟩,
+        (⟨s.heap ++ (thaw items).map (·.2), s.objs ++ [⟨(allocMany s.heap (thaw items)).2, capStr cap, true⟩], s.cache, s.empty⟩,
          .ok s.objs.length)) := by
   unfold newDerived
   split
@@ -544,20 +562,20 @@ theorem cacheNew_derived_good {db : Db} {s : State} (hs : Inv db s) (items : Lis
   · rw [hok] at h
     simp only [cacheNew, setKey_of_lookup_none _ hmiss, Prod.mk.injEq] at h
     obtain ⟨rfl, rfl⟩ := h
-    have hinv := Inv.create hs (items.map (·.2)) ⟨(allocMany s.heap items).2, capStr cap, true⟩
+    have hinv := Inv.create hs ((thaw items).map (·.2)) ⟨(allocMany s.heap (thaw items)).2, capStr cap, true⟩
       [compKey items cap]
       ⟨by
         intro kr hkr
-        have := (allocMany_refs s.heap items kr hkr).2
+        have := (allocMany_refs s.heap (thaw items) kr hkr).2
         simpa using this,
        fun hd => by simp at hd,
-       fun _ => ⟨items, by
-          have := readMap_allocMany s.heap items
+       fun _ => ⟨thaw items, by
+          have := readMap_allocMany s.heap (thaw items)
           rw [allocMany_heap] at this
-          exact this, hshape, by
+          exact this, by rw [dictIsSingleOne_thaw]; exact hshape, by
           simp only [List.map_cons, List.map_nil]
-          rw [lookupKey_append_single, ← compKey_eq, hmiss]
-          simp⟩⟩
+          rw [lookupKey_append_single, content_thaw, ← compKey_eq, hmiss]
+          simp, thaw_unfrozen items⟩⟩
       (by
         intro cat' u' cap' hmem
         rw [compKey_eq] at hmem
@@ -1186,7 +1204,8 @@ theorem contentEq_qeq {db : Db} {s : State} (hs : Inv db s) {i j : Nat} {a b : Q
       rw [hx] at hr1; rw [hy] at hr2
       simp only [Option.some.injEq] at hr1 hr2
       subst hr1; subst hr2
-      rw [hcont, hcap, hl2] at hl1
+      have hl1 := hl1.1
+      rw [hcont, hcap, hl2.1] at hl1
       simp only [Option.some.injEq] at hl1
       subst hl1
       rw [ha] at hb
@@ -1265,6 +1284,270 @@ theorem pickle_roundtrip {db : Db} {s : State} (hs : Inv db s) {i : Nat} {q : Qu
   · obtain ⟨cs, hread, hshape, hl⟩ := oq.derived hd
     refine ⟨(cs, capR), s, i, q, ?_, ?_, hq, qeq_refl_of_some hread, fun _ => ⟨rfl, rfl⟩⟩
     · simp only [reduce, cellsOf, hread, Option.map_some, hcapR]
-    · simp only [obtainReduced, obtain, normSeq, obtainDict, hshape, compKey_eq, hcs, hl]
+    · simp only [obtainReduced, obtain, normSeq, obtainDict, hshape, compKey_eq, hcs, hl.1]
+
+
+/-! ### every cell of a live quantity is a list: no list/tuple distinction, no tuple `TypeError` -/
+
+theorem unfrozen_eq_of_content : ∀ {x y : List (Sym × Cell)}, (∀ kc ∈ x, kc.2.frozen = false) →
+    (∀ kc ∈ y, kc.2.frozen = false) → content x = content y → x = y
+  | [], [], _, _, _ => rfl
+  | [], _ :: _, _, _, h => by simp [content] at h
+  | _ :: _, [], _, _, h => by simp [content] at h
+  | a :: x, b :: y, hx, hy, h => by
+    simp only [content, List.map_cons, List.cons.injEq, Prod.mk.injEq] at h
+    obtain ⟨⟨h1, h2, h3⟩, h4⟩ := h
+    have ha := hx a (by simp)
+    have hb := hy b (by simp)
+    have : a = b := by
+      obtain ⟨a1, ⟨au, ae, af⟩⟩ := a
+      obtain ⟨b1, ⟨bu, be, bf⟩⟩ := b
+      simp only at h1 h2 h3 ha hb
+      subst h1; subst h2; subst h3; subst ha; subst hb; rfl
+    rw [this, unfrozen_eq_of_content (fun kc h => hx kc (by simp [h])) (fun kc h => hy kc (by simp [h])) h4]
+
+/-- the cells of a live quantity can be read and are lists -/
+theorem live_cells {db : Db} {s : State} (hs : Inv db s) {i : Nat} {q : Quantity} (hq : s.objs[i]? = some q) :
+    ∃ cs, readMap s.heap q.map = some cs ∧ ∀ kc ∈ cs, kc.2.frozen = false := by
+  have o := hs.objs i q hq
+  cases hd : q.derived
+  · obtain ⟨cat, u, hr, _, _⟩ := simple_read o hd
+    exact ⟨_, hr, fun kc hkc => by simp only [List.mem_singleton] at hkc; rw [hkc]⟩
+  · obtain ⟨cs, hr, _, _, hu⟩ := o.derived hd
+    exact ⟨cs, hr, hu⟩
+
+/-- between live quantities `==` is equality of composing map and caption -/
+theorem live_qeq_iff {db : Db} {s : State} (hs : Inv db s) {i j : Nat} {a b : Quantity}
+    (ha : s.objs[i]? = some a) (hb : s.objs[j]? = some b) :
+    qeq s.heap a b = contentEq s.heap a b := by
+  obtain ⟨x, hx, ux⟩ := live_cells hs ha
+  obtain ⟨y, hy, uy⟩ := live_cells hs hb
+  simp only [qeq, contentEq, hx, hy]
+  by_cases h : content x = content y
+  · rw [unfrozen_eq_of_content ux uy h]; simp
+  · have hne : x ≠ y := fun e => h (by rw [e])
+    have e1 : (x == y) = false := by simpa using hne
+    have e2 : (content x == content y) = false := by simpa using h
+    rw [e1, e2]
+
+def Unfrozen (h : Heap) (m : Map) : Prop := ∀ kr ∈ m, ∀ c, h[kr.2]? = some c → c.frozen = false
+
+theorem unfrozen_of_read {h : Heap} {m : Map} {cs : List (Sym × Cell)} (hr : readMap h m = some cs)
+    (hu : ∀ kc ∈ cs, kc.2.frozen = false) : Unfrozen h m := by
+  induction m generalizing cs with
+  | nil => intro kr hkr; simp at hkr
+  | cons a rest ih =>
+    obtain ⟨k, r⟩ := a
+    simp only [readMap] at hr
+    cases hc : h[r]? with
+    | none => simp [hc] at hr
+    | some c0 =>
+      cases hrest : readMap h rest with
+      | none => simp [hc, hrest] at hr
+      | some cs' =>
+        simp only [hc, hrest, Option.some.injEq] at hr
+        subst hr
+        intro kr hkr c hcell
+        simp only [List.mem_cons] at hkr
+        rcases hkr with rfl | hkr
+        · rw [hc] at hcell; simp only [Option.some.injEq] at hcell; subst hcell; exact hu (k, c0) (by simp)
+        · exact ih hrest (fun kc hkc => hu kc (by simp [hkc])) kr hkr c hcell
+
+theorem Unfrozen.ext {h h' : Heap} {m : Map} (hu : Unfrozen h m) (hw : ∀ kr ∈ m, kr.2 < h.length)
+    (he : HeapExt h h') : Unfrozen h' m :=
+  fun kr hkr c hc => hu kr hkr c (by rw [← he.2 kr.2 (hw kr hkr)]; exact hc)
+
+theorem getInfo_err_units {db : Db} {qt u : Sym} {a b : Bool} {e : ErrKind}
+    (h : db.getInfo qt u a b = .error e) : e = .units := by
+  unfold Db.getInfo at h
+  split at h
+  · cases h
+  · split at h
+    · cases h; rfl
+    · split at h
+      · cases h
+      · split at h
+        · cases h
+        · split at h
+          · cases h
+          · cases h; rfl
+
+theorem convertCheck_err_units {db : Db} {cq a b : Sym} {e : ErrKind}
+    (h : convertCheck db cq a b = .error e) : e = .units := by
+  unfold convertCheck at h
+  split at h
+  · cases h
+  · split at h
+    · rename_i e' ht
+      cases h
+      unfold Db.typeOf at ht
+      split at ht
+      · cases ht
+      · split at ht
+        · cases ht
+        · cases ht; rfl
+    · split at h
+      · rename_i hg; cases h; exact getInfo_err_units hg
+      · split at h
+        · rename_i hg; cases h; exact getInfo_err_units hg
+        · cases h
+
+theorem unfrozen_set {h : Heap} {m : Map} (hu : Unfrozen h m) {r : Nat} {c' : Cell} (hc' : c'.frozen = false) :
+    Unfrozen (h.set r c') m := by
+  intro kr hkr c hc
+  rw [List.getElem?_set] at hc
+  split at hc
+  · split at hc
+    · simp only [Option.some.injEq] at hc; rw [← hc]; exact hc'
+    · cases hc
+  · exact hu kr hkr c hc
+
+theorem matchPass_no_type {db : Db} (m : Map) :
+    ∀ (h : Heap) (found : List (Sym × Sym)), Unfrozen h m → matchPass db h found m ≠ .error .type := by
+  induction m with
+  | nil => intro h found _ hm; simp [matchPass] at hm
+  | cons a rest ih =>
+    obtain ⟨cat, r⟩ := a
+    intro h found hu hm
+    have hrest : Unfrozen h rest := fun kr hkr => hu kr (by simp [hkr])
+    simp only [matchPass] at hm
+    split at hm
+    · cases hm
+    · rename_i cell hcell
+      split at hm
+      · cases hm
+      · split at hm
+        · exact ih h _ hrest hm
+        · split at hm
+          · rename_i e he
+            simp only [Except.error.injEq] at hm
+            subst hm
+            cases convertCheck_err_units he
+          · have hf : cell.frozen = false := hu (cat, r) (by simp) cell hcell
+            rw [if_neg (by rw [hf]; simp)] at hm
+            refine ih _ _ (unfrozen_set hrest ?_) hm
+            exact hf
+
+theorem matchPass_flags {db : Db} (m : Map) :
+    ∀ (h : Heap) (found : List (Sym × Sym)) {h' : Heap} {f' : List (Sym × Sym)},
+      matchPass db h found m = .ok (h', f') →
+      ∀ (a : Nat) (c : Cell), h'[a]? = some c → ∃ c0 : Cell, h[a]? = some c0 ∧ c0.frozen = c.frozen := by
+  induction m with
+  | nil =>
+    intro h found h' f' hm a c hc
+    simp only [matchPass, Except.ok.injEq, Prod.mk.injEq] at hm
+    obtain ⟨rfl, rfl⟩ := hm
+    exact ⟨c, hc, rfl⟩
+  | cons x rest ih =>
+    obtain ⟨cat, r⟩ := x
+    intro h found h' f' hm a c hc
+    simp only [matchPass] at hm
+    split at hm
+    · cases hm
+    · rename_i cell hcell
+      split at hm
+      · cases hm
+      · split at hm
+        · exact ih h _ hm a c hc
+        · split at hm
+          · cases hm
+          · split at hm
+            · cases hm
+            · obtain ⟨c1, hc1, hf1⟩ := ih _ _ hm a c hc
+              by_cases hr : r = a
+              · subst hr
+                have hlt : r < h.length := (List.getElem?_eq_some_iff.mp hcell).1
+                rw [List.getElem?_set_self hlt] at hc1
+                cases hc1
+                exact ⟨cell, hcell, hf1⟩
+              · rw [List.getElem?_set_ne hr] at hc1
+                exact ⟨c1, hc1, hf1⟩
+
+theorem Unfrozen.of_flags {h h' : Heap} {m : Map} (hu : Unfrozen h m)
+    (hf : ∀ (a : Nat) (c : Cell), h'[a]? = some c → ∃ c0 : Cell, h[a]? = some c0 ∧ c0.frozen = c.frozen) :
+    Unfrozen h' m := by
+  intro kr hkr c hc
+  obtain ⟨c0, h0, e0⟩ := hf kr.2 c hc
+  rw [← e0]; exact hu kr hkr c0 h0
+
+theorem matchQuantities_no_type {db : Db} {h : Heap} {m1 m2 : Map} (h1 : Unfrozen h m1) (h2 : Unfrozen h m2) :
+    matchQuantities db h m1 m2 ≠ .error .type ∧
+    ∀ h3, matchQuantities db h m1 m2 = .ok h3 → Unfrozen h3 m1 ∧ Unfrozen h3 m2 := by
+  unfold matchQuantities
+  split
+  · rename_i e he
+    refine ⟨fun hh => ?_, fun h3 hh => by cases hh⟩
+    cases hh; exact matchPass_no_type m1 h [] h1 he
+  · rename_i ha f1 heq1
+    have fl1 := matchPass_flags m1 h [] heq1
+    split
+    · rename_i e he
+      refine ⟨fun hh => ?_, fun h3 hh => by cases hh⟩
+      cases hh; exact matchPass_no_type m2 ha f1 (h2.of_flags fl1) he
+    · rename_i hb f2 heq2
+      have fl2 := matchPass_flags m2 ha f1 heq2
+      refine ⟨fun hh => (by cases hh), fun h3 hh => ?_⟩
+      cases hh
+      exact ⟨(h1.of_flags fl1).of_flags fl2, (h2.of_flags fl1).of_flags fl2⟩
+
+theorem mergePass_no_type {div : Bool} (m2 : Map) :
+    ∀ (h : Heap) (m1 : Map), Unfrozen h m1 → mergePass div h m1 m2 ≠ .error .type := by
+  induction m2 with
+  | nil => intro h m1 _ hm; simp [mergePass] at hm
+  | cons x rest ih =>
+    obtain ⟨c2, r2⟩ := x
+    intro h m1 hu hm
+    simp only [mergePass] at hm
+    split at hm
+    · cases hm
+    · rename_i cell2 _
+      split at hm
+      · refine ih _ _ ?_ hm
+        intro kr hkr c hc
+        simp only [List.mem_append, List.mem_singleton] at hkr
+        by_cases hlt : kr.2 < h.length
+        · rw [List.getElem?_append_left hlt] at hc
+          rcases hkr with hkr | rfl
+          · exact hu kr hkr c hc
+          · simp at hlt
+        · have : kr.2 = h.length ∨ h.length < kr.2 := by omega
+          rcases this with he | hgt
+          · rw [he] at hc; simp at hc; rw [← hc]
+          · rw [List.getElem?_eq_none (by simp; omega)] at hc; cases hc
+      · rename_i r1 hget
+        split at hm
+        · cases hm
+        · rename_i cell1 hcell1
+          obtain ⟨k', hk'⟩ := odGet_mem hget
+          have hf : cell1.frozen = false := hu _ hk' cell1 hcell1
+          split at hm
+          · rw [if_neg (by rw [hf]; simp)] at hm
+            refine ih _ _ (unfrozen_set hu ?_) hm
+            exact hf
+          · cases hm
+
+/-- the working copies of two live quantities: the unit matching and the merge of the exponents
+never raise the tuple `TypeError` -/
+theorem copies_no_type {db : Db} {s : State} (hs : Inv db s) {i1 i2 : Nat} {q1 q2 : Quantity}
+    (hq1 : s.objs[i1]? = some q1) (hq2 : s.objs[i2]? = some q2) {h1 h2 : Heap} {m1 m2 : Map}
+    (hc1 : copyMap s.heap q1.map = some (h1, m1)) (hc2 : copyMap h1 q2.map = some (h2, m2)) :
+    matchQuantities db h2 m1 m2 ≠ .error .type ∧
+    ∀ h3, matchQuantities db h2 m1 m2 = .ok h3 → ∀ div, mergePass div h3 m1 m2 ≠ .error .type := by
+  obtain ⟨cs1, hr1, u1⟩ := live_cells hs hq1
+  obtain ⟨cs2, hr2, u2⟩ := live_cells hs hq2
+  have e1 := (copyMap_spec hc1).1
+  have e2 := (copyMap_spec hc2).1
+  have wf2 := (hs.objs i2 q2 hq2).wf
+  have hr2' : readMap h1 q2.map = some cs2 := by rw [readMap_ext wf2 e1, hr2]
+  simp only [copyMap, hr1, Option.some.injEq] at hc1
+  simp only [copyMap, hr2', Option.some.injEq] at hc2
+  have a1 := readMap_allocMany s.heap cs1
+  have a2 := readMap_allocMany h1 cs2
+  rw [hc1] at a1; rw [hc2] at a2
+  simp only at a1 a2
+  have U1 : Unfrozen h2 m1 := (unfrozen_of_read a1 u1).ext (readMap_some_wf a1) e2
+  have U2 : Unfrozen h2 m2 := unfrozen_of_read a2 u2
+  obtain ⟨n1, n2⟩ := matchQuantities_no_type (db := db) U1 U2
+  exact ⟨n1, fun h3 hh div => mergePass_no_type m2 h3 m1 (n2 h3 hh).1⟩
 
 end Barril.Intern
